@@ -298,11 +298,25 @@ func c33AllocClass(inLen int, f func()) string {
 	return "ok"
 }
 
+// c33Live is a decoded message that stays alive: view dumps its CURRENT content, reenc re-encodes it.
+type c33Live struct {
+	view  func() string
+	reenc func() ([]byte, error)
+}
+
+// c33Recv is a message value used as the receiver of several Decode calls.
+type c33Recv struct {
+	decode func(in []byte) error
+	live   *c33Live
+}
+
 // c33Kind describes one decoder under test.
 type c33Kind struct {
 	name string
-	// decode returns the canonical dump of the decoded message and a closure re-encoding it
-	decode func(in []byte) (dump string, reenc func() ([]byte, error), err error)
+	// decode runs the production entry point on a fresh value
+	decode func(in []byte) (*c33Live, error)
+	// recv (optional) makes a fresh receiver whose Decode method can be called repeatedly
+	recv func() *c33Recv
 	// valid draws the encoding of a random valid message
 	valid func(r *vhRng) []byte
 	// scan returns the byte-string bytes the decoder would allocate for this input
@@ -313,31 +327,104 @@ type c33Kind struct {
 	typ   reflect.Type
 }
 
-// c33RunKind is the observable of one case: ok <dump> re=<hex> rt=<0|1> | err | panic | timeout
-func c33RunKind(k *c33Kind, in []byte, withAlloc bool) string {
+func c33Clone(b []byte) []byte { return append(make([]byte, 0, len(b)), b...) }
+
+// c33Hardening decodes the same input again under the three conditions a single decode into a
+// fresh value never exercises, and returns the flags of what went wrong:
+//
+//	!mut    the decoder wrote into the caller's input buffer
+//	!alias  the decoded message changed when the input buffer was overwritten afterwards (network
+//	        read buffers are pooled and reused)
+//	!reuse  decoding into a receiver that already held another valid message of the same kind
+//	        gave a different result (stale fields) or a different error status
+func c33Hardening(k *c33Kind, line string, in []byte, buf []byte, live *c33Live, freshErr error, dump string, enc []byte, encErr error) string {
+	flags := ""
+	if string(buf) != string(in) {
+		flags += " !mut"
+	}
+	if freshErr == nil {
+		for i := range buf {
+			buf[i] ^= 0xff
+		}
+		if len(buf) < cap(buf) { // also what lies behind the message in the pooled buffer
+			ext := buf[:cap(buf)]
+			for i := len(buf); i < len(ext); i++ {
+				ext[i] = 0xee
+			}
+		}
+		enc2, err2 := live.reenc()
+		if live.view() != dump || (err2 == nil) != (encErr == nil) || string(enc2) != string(enc) {
+			flags += " !alias"
+		}
+	}
+	if k.recv != nil {
+		// the prefill depends on the line only
+		h := uint64(1469598103934665603)
+		for i := 0; i < len(line); i++ {
+			h = (h ^ uint64(line[i])) * 1099511628211
+		}
+		r := vhNewRng(h)
+		for round := 0; round < 2; round++ {
+			rc := k.recv()
+			prefill := k.valid(r)
+			for try := 0; try < 20 && k.scan(prefill) > 64<<10; try++ { // never a huge declared length
+				prefill = k.valid(r)
+			}
+			if k.scan(prefill) > 64<<10 {
+				break
+			}
+			_ = vhCatch(func() string { _ = rc.decode(prefill); return "" })
+			var err error
+			out := vhCatch(func() string { err = rc.decode(c33Clone(in)); return "" })
+			if out == "panic" {
+				flags += " !reuse-panic"
+				break
+			}
+			if (err == nil) != (freshErr == nil) {
+				flags += " !reuse"
+				break
+			}
+			if err == nil {
+				enc3, err3 := rc.live.reenc()
+				if rc.live.view() != dump || (err3 == nil) != (encErr == nil) || string(enc3) != string(enc) {
+					flags += " !reuse"
+					break
+				}
+			}
+		}
+	}
+	return flags
+}
+
+// c33RunKind is the observable of one case: ok <dump> re=<hex> rt=<0|1> | err | panic | timeout,
+// followed by the hardening flags (none on a correct decoder) and, on alloc lines, the class
+func c33RunKind(k *c33Kind, line string, in []byte, withAlloc bool) string {
 	return vhWithTimeout(4000, func() string {
-		var dump string
-		var reenc func() ([]byte, error)
+		buf := append(make([]byte, 0, len(in)+16), in...) // spare capacity, like a pooled read buffer
+		var live *c33Live
 		var err error
 		class := ""
 		if withAlloc {
-			class = " a=" + c33AllocClass(len(in), func() { dump, reenc, err = k.decode(in) })
+			class = " a=" + c33AllocClass(len(in), func() { live, err = k.decode(buf) })
 		} else {
-			dump, reenc, err = k.decode(in)
+			live, err = k.decode(buf)
 		}
 		if err != nil {
-			return "err" + class
+			return "err" + c33Hardening(k, line, in, buf, nil, err, "", nil, nil) + class
 		}
-		enc, err := reenc()
-		if err != nil {
-			return "ok " + dump + " re=err" + class
+		dump := live.view()
+		enc, encErr := live.reenc()
+		enc = c33Clone(enc) // Encode may return the message's own (aliased) bytes
+		flags := c33Hardening(k, line, in, buf, live, nil, dump, enc, encErr)
+		if encErr != nil {
+			return "ok " + dump + " re=err" + flags + class
 		}
 		rt := "0"
-		dump2, _, err := k.decode(enc)
-		if err == nil && dump2 == dump {
+		live2, err := k.decode(c33Clone(enc))
+		if err == nil && live2.view() == dump {
 			rt = "1"
 		}
-		return "ok " + dump + " re=" + vhHex(enc) + " rt=" + rt + class
+		return "ok " + dump + " re=" + vhHex(enc) + " rt=" + rt + flags + class
 	})
 }
 
@@ -630,7 +717,7 @@ func c33Gen(r *vhRng, kinds []*c33Kind) string {
 				// a successful decode would carry megabytes of zero fill into the dump: keep the
 				// failing ones (the allocation happens before the failure)
 				failed := vhCatch(func() string {
-					if _, _, err := k.decode(in); err != nil {
+					if _, err := k.decode(c33Clone(in)); err != nil {
 						return "err"
 					}
 					return "ok"
@@ -657,7 +744,7 @@ func c33Run(kinds []*c33Kind, line string) string {
 	}
 	for _, k := range kinds {
 		if k.name == f[1] {
-			return c33RunKind(k, vhUnhex(f[2]), f[0] == "alloc")
+			return c33RunKind(k, line, vhUnhex(f[2]), f[0] == "alloc")
 		}
 	}
 	return "bad-op"
